@@ -10,7 +10,7 @@ import (
 var seqBackends = &SeqCfg{
 	Focus: "backends", Ops: [2]int{30, 80}, NColls: [2]int{1, 3}, InitDocs: []int{0, 3, 10, 30},
 	AuditEvery: [2]int{20, 40}, Queries: 1, SupplyIDs: true, AfterClose: true, SortPct: 50,
-	W: weights(map[string]int{"Reopen": 0, "Derived": 3}),
+	W: weights(map[string]int{"Reopen": 0, "Derived": 3, "FailedCommit": 0}),
 }
 
 // RunBackends replays one seeded history on bbolt, badger on disk (shipped
